@@ -510,6 +510,14 @@ func (p *sqlProc) stop() {
 	}
 }
 
+// killNow ends the child at once (its file system is gone: SQLite would only
+// spin in its retry loops). A call in flight returns with an error.
+func (p *sqlProc) killNow() {
+	if p != nil && p.cmd.Process != nil {
+		_ = p.cmd.Process.Kill()
+	}
+}
+
 func (p *sqlProc) call(req sqlReq) (sqlResp, error) {
 	p.mu.Lock()
 	defer p.mu.Unlock()
@@ -533,6 +541,7 @@ func (p *sqlProc) call(req sqlReq) (sqlResp, error) {
 	case r := <-ch:
 		if r.err != nil {
 			p.dead = true
+			go func() { _ = p.cmd.Wait() }() // reap
 			return sqlResp{}, fmt.Errorf("SQL child died: %w", r.err)
 		}
 		var resp sqlResp
